@@ -80,8 +80,11 @@ def run(chk, st, tier):
     chk.coverage["model_vs_impl_cases"] = len(cases)
     chk.coverage["model_vs_impl_mismatches"] = mism
     # failing-input search / supporting exploration: brute force on the implementation
-    maxw = 4 if tier == "thorough" else 3
-    rc, out, err = C.run([os.path.join(C.BIN, "corehar"), "brute17", str(maxw)], timeout=1800)
+    # quick: every group of width <= 3 and a 1/257 strided sample of width 4; thorough - or whenever a proof
+    # obligation or the correspondence no longer checks (verdict rule: search for a failing input) - every group
+    full = tier == "thorough" or bool(chk.broken)
+    maxw = 4
+    rc, out, err = C.run([os.path.join(C.BIN, "corehar"), "brute17", "4", "1" if full else "257"], timeout=3600)
     groups = 0
     for l in out.splitlines():
         if l.startswith("FAIL "):
@@ -92,10 +95,10 @@ def run(chk, st, tier):
         chk.broke("search:C17", "brute force did not run: rc=%d %s" % (rc, err[-300:]))
     chk.coverage["implementation_groups_enumerated"] = groups
     chk.coverage["evaluations"] += groups
-    chk.coverage["exhaustive"] = (maxw == 4)
+    chk.coverage["exhaustive"] = full
     chk.coverage["rule"] = ("model-vs-implementation: all single-slot vectors, slot pairs, all width-1 groups, width-2 groups (all in thorough), "
                             "seeded random width-3/4 groups and uint8 inputs above the width; distinct = distinct (kind,width,input) with a non-zero input. "
-                            "Separately every 8-tuple and every w-byte group for w<=%d is enumerated on the implementation against a 3-line spec (search for a failing input; not the proof)." % maxw)
+                            "Separately every 8-tuple and every w-byte group for w<=3, and %s of width 4, is enumerated on the implementation against a 3-line spec (search for a failing input; not the proof)." % ("every group" if full else "a 1/257 strided sample (every group when a proof obligation breaks, and in the thorough tier)"))
     chk.coverage["explanation"] = ("C17_unpack_pack, C17_pack_spec, C17_pack_unpack, C17_pack_masks are proved for all groups about the tables "
                                    "translated from bitpack.go in this run (lor-linearity + vm_compute on the single-slot vectors).")
     if not st["translator_ok"]:
